@@ -30,41 +30,63 @@ Section Rule.
     BestOf (fun j b' => ExactP e ks j b' /\ (EagerP e ks -> feval e (beager b') = true)).
 
   (* One send to the generator, from the pass that examines the pending keys
-     [b] (flush = the item was the timeout) to the next `yield` or to the
-     exception. *)
-  Inductive pass_spec : list Z -> bool -> env -> list item -> lres -> Prop :=
-  | PS_empty flush e q : pass_spec [] flush e q (LDone [] e q [])
-  | PS_wait b e q :                     (* a longer active binding is still possible: wait *)
+     [b] (flush = the item was the timeout; d = app.is_done) to the next
+     `yield` or to the exception.  [H m] is what the handler of m does. *)
+  Inductive pass_spec : list Z -> bool -> env -> list item -> bool -> lres -> Prop :=
+  | PS_empty flush e q d : pass_spec [] flush e q d (LDone [] e q d [])
+  | PS_wait b e q d :                   (* a longer active binding is still possible: wait *)
       b <> [] -> ~ EagerP e b -> LongerP e b ->
-      pass_spec b false e q (LDone b e q [])
-  | PS_fire b flush e q i m e' q' :     (* fire on the whole pending sequence *)
+      pass_spec b false e q d (LDone b e q d [])
+  | PS_fire b flush e q d i m :         (* fire on the whole pending sequence *)
       b <> [] -> BestFire e b i m ->
       (feval e (beager m) = true \/ flush = true \/ ~ LongerP e b) ->
-      run_actions (bacts m) e q = (e', q', false) ->
-      pass_spec b flush e q (LDone [] e' q' [EInvoke i b])
-  | PS_fire_raise b flush e q i m e' q' :
+      hraised (run_actions (bacts m) e q d) = false ->
+      pass_spec b flush e q d
+        (LDone [] (he (run_actions (bacts m) e q d)) (hq (run_actions (bacts m) e q d))
+               (hdone (run_actions (bacts m) e q d)) (EInvoke i b :: hevs (run_actions (bacts m) e q d)))
+  | PS_fire_raise b flush e q d i m :
       b <> [] -> BestFire e b i m ->
       (feval e (beager m) = true \/ flush = true \/ ~ LongerP e b) ->
-      run_actions (bacts m) e q = (e', q', true) ->
-      pass_spec b flush e q (LRaised e' [EInvoke i b; ERaised [] q'])
-  | PS_retry b flush e q n i m e' q' r : (* nothing matches: longest dispatchable prefix first *)
+      hraised (run_actions (bacts m) e q d) = true ->
+      pass_spec b flush e q d
+        (LRaised (he (run_actions (bacts m) e q d)) (hdone (run_actions (bacts m) e q d))
+                 (EInvoke i b :: hevs (run_actions (bacts m) e q d) ++ [ERaised [] (hq (run_actions (bacts m) e q d))]))
+  | PS_retry b flush e q d n i m r :    (* nothing matches: longest dispatchable prefix first, the rest re-examined *)
       b <> [] -> NoExact e b -> (flush = true \/ ~ LongerP e b) ->
       (1 <= n <= length b)%nat -> BestOf (ExactP e (firstn n b)) i m ->
       (forall n', (n < n' <= length b)%nat -> NoExact e (firstn n' b)) ->
-      run_actions (bacts m) e q = (e', q', false) ->
-      pass_spec (skipn n b) false e' q' r ->
-      pass_spec b flush e q (lcons (EInvoke i (firstn n b)) r)
-  | PS_retry_raise b flush e q n i m e' q' :
+      hraised (run_actions (bacts m) e q d) = false ->
+      hdone (run_actions (bacts m) e q d) = false ->
+      pass_spec (skipn n b) false (he (run_actions (bacts m) e q d)) (hq (run_actions (bacts m) e q d)) false r ->
+      pass_spec b flush e q d (lapp (EInvoke i (firstn n b) :: hevs (run_actions (bacts m) e q d)) r)
+  | PS_retry_back b flush e q d n i m : (* ... but the handler finished the application: the rest goes back
+                                           to the front of the input queue, in order *)
       b <> [] -> NoExact e b -> (flush = true \/ ~ LongerP e b) ->
       (1 <= n <= length b)%nat -> BestOf (ExactP e (firstn n b)) i m ->
       (forall n', (n < n' <= length b)%nat -> NoExact e (firstn n' b)) ->
-      run_actions (bacts m) e q = (e', q', true) ->
-      pass_spec b flush e q (LRaised e' [EInvoke i (firstn n b); ERaised (skipn n b) q'])
+      hraised (run_actions (bacts m) e q d) = false ->
+      hdone (run_actions (bacts m) e q d) = true ->
+      pass_spec b flush e q d
+        (lapp (EInvoke i (firstn n b) :: hevs (run_actions (bacts m) e q d))
+              (hand_back (skipn n b) (he (run_actions (bacts m) e q d)) (hq (run_actions (bacts m) e q d))))
+  | PS_retry_raise b flush e q d n i m :
+      b <> [] -> NoExact e b -> (flush = true \/ ~ LongerP e b) ->
+      (1 <= n <= length b)%nat -> BestOf (ExactP e (firstn n b)) i m ->
+      (forall n', (n < n' <= length b)%nat -> NoExact e (firstn n' b)) ->
+      hraised (run_actions (bacts m) e q d) = true ->
+      pass_spec b flush e q d
+        (LRaised (he (run_actions (bacts m) e q d)) (hdone (run_actions (bacts m) e q d))
+                 (EInvoke i (firstn n b) :: hevs (run_actions (bacts m) e q d)
+                  ++ [ERaised (skipn n b) (hq (run_actions (bacts m) e q d))]))
   | PS_drop b flush e q r :             (* no prefix matches: exactly one key is dropped *)
       b <> [] -> (flush = true \/ ~ LongerP e b) ->
       (forall n', (1 <= n' <= length b)%nat -> NoExact e (firstn n' b)) ->
-      pass_spec (tl b) false e q r ->
-      pass_spec b flush e q (lcons (EDrop (hd 0 b)) r).
+      pass_spec (tl b) false e q false r ->
+      pass_spec b flush e q false (lcons (EDrop (hd 0 b)) r)
+  | PS_drop_back b flush e q :          (* ... and, the application being finished, the rest goes back *)
+      b <> [] -> (flush = true \/ ~ LongerP e b) ->
+      (forall n', (1 <= n' <= length b)%nat -> NoExact e (firstn n' b)) ->
+      pass_spec b flush e q true (lcons (EDrop (hd 0 b)) (hand_back (tl b) e q)).
 
   Notation bs := (index_from 0 l).
   Lemma filter_all (x : list ib) : filter all x = x.
@@ -128,53 +150,66 @@ Section Rule.
   Qed.
 
   (* The processor refines the rule. *)
-  Theorem loop_refines_rule : forall fuel b flush e q,
-    (length b < fuel)%nat -> pass_spec b flush e q (loop fuel bs b flush e q).
+  Theorem loop_refines_rule : forall fuel b flush e q d,
+    (length b < fuel)%nat -> pass_spec b flush e q d (loop fuel bs b flush e q d).
   Proof.
-    induction fuel as [|fuel IH]; intros b flush e q HL; [lia|]. cbn [loop].
+    induction fuel as [|fuel IH]; intros b flush e q d HL; [lia|]. cbn [loop].
     destruct b as [|k b0]; [constructor|].
     set (bb := k :: b0) in *.
     assert (NE : bb <> []) by discriminate.
+    pose (NM := match scan bs e bb (length bb) with
+                | Some (i, m) =>
+                    let r := run_actions (bacts (snd m)) e q d in
+                    if hraised r then LRaised (he r) (hdone r)
+                                        (EInvoke (fst m) (firstn i bb) :: hevs r ++ [ERaised (skipn i bb) (hq r)])
+                    else lapp (EInvoke (fst m) (firstn i bb) :: hevs r)
+                              (if hdone r then hand_back (skipn i bb) (he r) (hq r)
+                               else loop fuel bs (skipn i bb) false (he r) (hq r) false)
+                | None => lcons (EDrop (hd 0 bb)) (if d then hand_back (tl bb) e q else loop fuel bs (tl bb) false e q false)
+                end).
+    assert (NOMATCH : last_opt (get_matches bs e bb) = None -> (flush = true \/ ~ LongerP e bb) ->
+              pass_spec bb flush e q d NM).
+    { intros EL WHY. pose proof (proj1 (matches_none e bb) EL) as NX. unfold NM.
+      destruct (scan bs e bb (length bb)) as [[i m]|] eqn:ES.
+      - destruct (scan_some _ _ _ _ _ ES) as [H1 [H2 H3]]. cbv zeta.
+        destruct (hraised (run_actions (bacts (snd m)) e q d)) eqn:RA.
+        + eapply PS_retry_raise; eauto.
+        + destruct (hdone (run_actions (bacts (snd m)) e q d)) eqn:RD.
+          * eapply PS_retry_back; eauto.
+          * eapply PS_retry; eauto. apply IH. rewrite skipn_length. cbn [length] in *. lia.
+      - destruct d.
+        + apply PS_drop_back; auto. exact (scan_none _ _ _ ES).
+        + apply PS_drop; auto; [exact (scan_none _ _ _ ES)|]. apply IH. unfold bb in *. cbn [length tl] in *. lia. }
+    assert (FIRE : forall m, BestFire e bb (fst m) (snd m) ->
+              (feval e (beager (snd m)) = true \/ flush = true \/ ~ LongerP e bb) ->
+              pass_spec bb flush e q d
+                (let r := run_actions (bacts (snd m)) e q d in
+                 if hraised r then LRaised (he r) (hdone r) (EInvoke (fst m) bb :: hevs r ++ [ERaised [] (hq r)])
+                 else LDone [] (he r) (hq r) (hdone r) (EInvoke (fst m) bb :: hevs r))).
+    { intros m BF WHY. cbv zeta. destruct (hraised (run_actions (bacts (snd m)) e q d)) eqn:RA.
+      - eapply PS_fire_raise; eauto.
+      - eapply PS_fire; eauto. }
     destruct (filter (eager e) (get_matches bs e bb)) as [|e1 es] eqn:EF.
     - (* no eager match *)
       pose proof (proj1 (eager_none e bb) EF) as NEg.
+      assert (GO : (flush = true \/ ~ LongerP e bb) ->
+                pass_spec bb flush e q d
+                  (match last_opt (get_matches bs e bb) with
+                   | Some m =>
+                       let r := run_actions (bacts (snd m)) e q d in
+                       if hraised r then LRaised (he r) (hdone r) (EInvoke (fst m) bb :: hevs r ++ [ERaised [] (hq r)])
+                       else LDone [] (he r) (hq r) (hdone r) (EInvoke (fst m) bb :: hevs r)
+                   | None => NM
+                   end)).
+      { intros WHY. destruct (last_opt (get_matches bs e bb)) as [m|] eqn:EL.
+        - pose proof (matches_pick _ _ _ EL) as [B1 B2]. apply FIRE; [|tauto].
+          split; [split; [exact B1|tauto]|]. intros j b' [HP _]. exact (B2 j b' HP).
+        - apply NOMATCH; [reflexivity|exact WHY]. }
       destruct flush.
-      + (* timeout: never wait *)
-        destruct (last_opt (get_matches bs e bb)) as [m|] eqn:EL.
-        * pose proof (matches_pick _ _ _ EL) as [B1 B2].
-          assert (BF : BestFire e bb (fst m) (snd m)).
-          { split; [split; [exact B1|tauto]|]. intros j b' [HP _]. exact (B2 j b' HP). }
-          destruct (run_actions (bacts (snd m)) e q) as [[e' q'] r] eqn:RA. destruct r.
-          -- eapply PS_fire_raise; eauto.
-          -- eapply PS_fire; eauto.
-        * pose proof (proj1 (matches_none e bb) EL) as NX.
-          destruct (scan bs e bb (length bb)) as [[i m]|] eqn:ES.
-          -- destruct (scan_some _ _ _ _ _ ES) as [H1 [H2 H3]].
-             destruct (run_actions (bacts (snd m)) e q) as [[e' q'] r] eqn:RA. destruct r.
-             ++ eapply PS_retry_raise; eauto.
-             ++ eapply PS_retry; eauto. apply IH. rewrite skipn_length. cbn [length] in *. lia.
-          -- apply PS_drop; auto.
-             ++ exact (scan_none _ _ _ ES).
-             ++ apply IH. unfold bb in *. cbn [length tl] in *. lia.
+      + apply GO. left; reflexivity.
       + destruct (is_prefix bs e bb) eqn:EP.
         * apply PS_wait; auto. apply is_prefix_iff. exact EP.
-        * assert (NL : ~ LongerP e bb) by (intros H; apply is_prefix_iff in H; congruence).
-          destruct (last_opt (get_matches bs e bb)) as [m|] eqn:EL.
-          -- pose proof (matches_pick _ _ _ EL) as [B1 B2].
-             assert (BF : BestFire e bb (fst m) (snd m)).
-             { split; [split; [exact B1|tauto]|]. intros j b' [HP _]. exact (B2 j b' HP). }
-             destruct (run_actions (bacts (snd m)) e q) as [[e' q'] r] eqn:RA. destruct r.
-             ++ eapply PS_fire_raise; eauto.
-             ++ eapply PS_fire; eauto.
-          -- pose proof (proj1 (matches_none e bb) EL) as NX.
-             destruct (scan bs e bb (length bb)) as [[i m]|] eqn:ES.
-             ++ destruct (scan_some _ _ _ _ _ ES) as [H1 [H2 H3]].
-                destruct (run_actions (bacts (snd m)) e q) as [[e' q'] r] eqn:RA. destruct r.
-                ** eapply PS_retry_raise; eauto.
-                ** eapply PS_retry; eauto. apply IH. rewrite skipn_length. cbn [length] in *. lia.
-             ++ apply PS_drop; auto.
-                ** exact (scan_none _ _ _ ES).
-                ** apply IH. unfold bb in *. cbn [length tl] in *. lia.
+        * apply GO. right. intros H; apply is_prefix_iff in H; congruence.
     - (* some active exact match is eager: it fires at once *)
       rewrite <- EF.
       assert (HE : EagerP e bb).
@@ -184,11 +219,8 @@ Section Rule.
       destruct (last_opt (filter (eager e) (get_matches bs e bb))) as [m|] eqn:EL.
       + destruct m as [i m]. destruct (pick_best l e bb (eager e) i m EL) as [B1 B2].
         apply sel_eager in B1. destruct B1 as [B1 B1e].
-        assert (BF : BestFire e bb i m).
-        { split; [split; [exact B1|intros _; exact B1e]|]. intros j b' [HP HQ]. apply B2. apply sel_eager. split; [exact HP|exact (HQ HE)]. }
-        cbn [fst snd]. destruct (run_actions (bacts m) e q) as [[e' q'] r] eqn:RA. destruct r.
-        * eapply PS_fire_raise; eauto.
-        * eapply PS_fire; eauto.
+        apply (FIRE (i, m)); [|left; exact B1e].
+        split; [split; [exact B1|intros _; exact B1e]|]. intros j b' [HP HQ]. apply B2. apply sel_eager. split; [exact HP|exact (HQ HE)].
       + apply last_opt_none in EL. congruence.
   Qed.
 End Rule.
@@ -197,8 +229,8 @@ Lemma specificity l e ks i b :
   last_opt (get_matches (index_from 0 l) e ks) = Some (i, b) -> BestOf (ExactP l e ks) i b.
 Proof. intros H. exact (matches_pick l e ks (i, b) H). Qed.
 
-Lemma send_refines_rule l b e q it :
-  pass_spec l (push b it) (is_flush it) e q (send (index_from 0 l) b e q it).
+Lemma send_refines_rule l b e q d it :
+  pass_spec l (push b it) (is_flush it) e q d (send (index_from 0 l) b e q d it).
 Proof. unfold send. apply loop_refines_rule. lia. Qed.
 
 (* the rule determines the outcome: two runs allowed by the specification are equal *)
@@ -253,8 +285,8 @@ Ltac same_n :=
       subst n0
   end.
 
-Theorem pass_spec_deterministic l : forall b flush e q r1,
-  pass_spec l b flush e q r1 -> forall r2, pass_spec l b flush e q r2 -> r1 = r2.
+Theorem pass_spec_deterministic l : forall b flush e q d r1,
+  pass_spec l b flush e q d r1 -> forall r2, pass_spec l b flush e q d r2 -> r1 = r2.
 Proof.
   assert (EX : forall e ks j b, ExactP l e ks j b -> nth_error l j = Some b) by (intros e ks j b H; apply H).
   assert (EXF : forall e ks j b, (ExactP l e ks j b /\ (EagerP l e ks -> feval e (beager b) = true)) -> nth_error l j = Some b)
@@ -266,8 +298,5 @@ Proof.
     | B1 : BestOf (ExactP _ ?e ?ks) _ _, B2 : BestOf (ExactP _ ?e ?ks) _ _ |- _ =>
         destruct (BestOf_unique l _ _ _ _ _ (EX e ks) B1 B2); subst
     end;
-    try match goal with
-    | R1 : run_actions ?a ?e ?q = _, R2 : run_actions ?a ?e ?q = _ |- _ => rewrite R1 in R2; inversion R2; subst
-    end;
-    try reflexivity; try (f_equal; auto).
+    try reflexivity; try congruence; try (f_equal; auto).
 Qed.
